@@ -141,6 +141,9 @@ impl TraitImpl for ZeroizeOnDrop {
 		data: &Data,
 	) -> TokenStream {
 		if data.is_empty(**trait_) {
+			#[cfg(feature = "zeroize-on-drop")]
+			return super::zeroize::empty_arm(data);
+			#[cfg(not(feature = "zeroize-on-drop"))]
 			TokenStream::new()
 		} else {
 			match data.simple_type() {
